@@ -932,6 +932,16 @@ class _Flattener:
                     if pre is not None:
                         s.iter = ast.copy_location(ast.Name(id=tmp, ctx=ast.Load()), s.iter)
                         out.extend(pre)
+                elif isinstance(s, ast.If) and isinstance(s.test, ast.Compare) and isinstance(s.test.left, ast.Call) and self.callee_of(s.test.left, stack) is not None \
+                        and all(isinstance(x, (ast.Constant, ast.Name)) or (isinstance(x, ast.Attribute) and isinstance(x.value, ast.Name)) for x in s.test.comparators):
+                    # if self.m(a) is True: / == X:   ->   m__result = self.m(a) [expanded];  if m__result is True:
+                    c = self.callee_of(s.test.left, stack)
+                    self.k += 1
+                    tmp = '%s__result%d' % (c.name.strip('_'), self.k)
+                    pre = self.expand(s.test.left, c, ast.Name(id=tmp, ctx=ast.Store()), caller_names, stack, depth)
+                    if pre is not None:
+                        s.test.left = ast.copy_location(ast.Name(id=tmp, ctx=ast.Load()), s.test.left)
+                        out.extend(pre)
                 elif isinstance(s, ast.If):
                     t = s.test
                     neg = isinstance(t, ast.UnaryOp) and isinstance(t.op, ast.Not)
